@@ -591,7 +591,7 @@ def gap_texts(prop, tier, extra_bases=()):
     pairs = [(i, i + 1) for i in range(0, len(gaps) - 1, 3 if tier == "quick" else 1)]
     pairs += [(i, i) for i in range(0, len(gaps), 5 if tier == "quick" else 1)]
     if tier != "quick":
-        pairs += [tuple(sorted(rnd.sample(range(len(gaps)), 2))) for _ in range(600)]
+        pairs += [tuple(sorted(rnd.sample(range(len(gaps)), 2))) for _ in range(2500)]
     for n, (i, j) in enumerate(pairs):
         k1, k2 = rnd.choice(["block", "line"]), rnd.choice(["block", "line"])
         c1 = "/* c1 */ " if k1 == "block" else "// c1\n"
@@ -600,6 +600,17 @@ def gap_texts(prop, tier, extra_bases=()):
         GAPINFO[tid] = {"comment": f"{k1},{k2}", "before_token": [gaps[i]["tok"], gaps[j]["tok"]], "context": [gaps[i]["ctx"], gaps[j]["ctx"]], "gap": [i, j]}
         a, b2 = gaps[i]["s"], gaps[j]["s"]
         out.append((tid, (bb[:a] + c1.encode() + bb[a:b2] + c2.encode() + bb[b2:]).decode()))
+    if tier != "quick":
+        # three comments at random boundaries
+        for n in range(1500):
+            i, j, k3 = sorted(rnd.sample(range(len(gaps)), 3))
+            ks = [rnd.choice(["block", "line"]) for _ in range(3)]
+            cs = [("/* c%d */ " % (x + 1)) if ks[x] == "block" else ("// c%d\n" % (x + 1)) for x in range(3)]
+            tid = f"gap3-{i}-{j}-{k3}-{'-'.join(ks)}"
+            GAPINFO[tid] = {"comment": ",".join(ks), "before_token": [gaps[x]["tok"] for x in (i, j, k3)],
+                            "context": [gaps[x]["ctx"] for x in (i, j, k3)], "gap": [i, j, k3]}
+            p1, p2, p3 = gaps[i]["s"], gaps[j]["s"], gaps[k3]["s"]
+            out.append((tid, (bb[:p1] + cs[0].encode() + bb[p1:p2] + cs[1].encode() + bb[p2:p3] + cs[2].encode() + bb[p3:]).decode()))
     return out
 
 
